@@ -232,6 +232,15 @@ impl<'invocation> InvocationCtx<'invocation> {
     pub fn invoke(&mut self) -> Result<Option<IpldBlock>, ActorError> {
         let prior_root = self.v.checkpoint();
         let res = self.invoke_inner();
+        if let Err(e) = &res {
+            self.v.error_log.borrow_mut().push((
+                self.msg.from,
+                self.msg.to,
+                self.msg.method,
+                e.exit_code().value(),
+                e.msg().to_string(),
+            ));
+        }
         if res.is_err() {
             // harness VM: roll back on *every* failure path (test_vm leaks the debit when
             // resolve_target fails after the sender was debited)
